@@ -503,13 +503,17 @@ func xProg(id string, kind int) *hs.Prog {
 		st.Ops = []hs.Op{row(0), {K: "panic"}}
 	case 11, 12: // complete only
 		st.Ops = []hs.Op{{K: "complete", Tag: "OK " + id}}
+	case 15, 16: // the result is completed, then the statement function fails all the same: an error is an error
+		st.Ops = []hs.Op{row(0), {K: "complete", Tag: "SELECT 1 " + id}, {K: "err", Err: &hs.ErrSpec{Base: "failure after completion " + id, Wraps: []hs.Wrap{{K: 'c', S: "40001"}}}}}
+	case 17, 18: // Empty(), then failure
+		st.Ops = []hs.Op{{K: "empty"}, {K: "err", Err: &hs.ErrSpec{Base: "failure after Empty " + id, Wraps: []hs.Wrap{{K: 'c', S: "40P01"}}}}}
 	default: // bad row then rows
 		st.Ops = []hs.Op{{K: "arity", Vals: []any{"a", "b", "c"}}, row(0), {K: "complete", Tag: "SELECT 1 " + id}}
 	}
 	return &hs.Prog{Stmts: []*hs.Stmt{st}}
 }
 
-const xProgKinds = 15
+const xProgKinds = 19
 
 // runHistory executes a history in lock-step against a fresh connection and
 // judges every step with the model. Returns false when a violation was reported.
